@@ -1,2 +1,82 @@
-(* C15 - traversal plans are well formed.  Statements only; proofs in Proofs/. *)
-From BaoV Require Import Model.Iter Spec.PlanSpec.
+(* C15 - traversal plans are well formed.  Statements only; proofs in Proofs/Plan*.v. *)
+From BaoV Require Import Model.Iter Spec.PlanSpec Spec.PlanWf.
+From BaoV Require Import Proofs.PlanProps Proofs.PlanPreStruct Proofs.PlanPost Proofs.PlanPostIter Proofs.PlanPreHolds.
+
+(* ---- A. stack machines = recursive specifications ---- *)
+Theorem C15_pre_plan : forall size bs ml q, size <= 2 ^ 63 -> bs <= 10 -> wf_ranges q = true ->
+  map without_ranges (pre_order_chunks_iter (mkTree size bs) q ml) = pre_plan size bs ml q.
+Proof. exact c15_pre_plan. Qed.
+Print Assumptions C15_pre_plan.
+
+Theorem C15_response_plan : forall size bs q, size <= 2 ^ 63 -> bs <= 10 -> wf_ranges q = true ->
+  response_iter (mkTree size bs) q = pre_plan size 0 bs q.
+Proof. exact c15_response_plan. Qed.
+Print Assumptions C15_response_plan.
+
+(* the node iterator = Shape listing fact is proved separately; it is a hypothesis here *)
+Theorem C15_post_plan_from_nodes : forall size bs, size <= 2 ^ 63 -> bs <= 10 ->
+  let t := mkTree size bs in
+  post_order_nodes_shifted (fst (shifted t)) (snd (shifted t)) = sh_post 65 0 (sp_blocks size bs) ->
+  post_order_chunks_iter t = post_plan size bs.
+Proof. exact post_plan_from_nodes. Qed.
+Print Assumptions C15_post_plan_from_nodes.
+
+(* ---- B. well-formedness of the recursive pre-order plan ---- *)
+Theorem C15_pre_stack : forall size bs ml q, size <= 2 ^ 63 -> bs <= 10 -> wf_ranges q = true -> q <> [] ->
+  pre_stack_ok (pre_plan size bs ml q) 1 = true.
+Proof. exact pre_stack_plan. Qed.
+Print Assumptions C15_pre_stack.
+
+Theorem C15_pre_root_flag : forall size bs ml q, size <= 2 ^ 63 -> bs <= 10 -> wf_ranges q = true -> q <> [] ->
+  root_flag_first (pre_plan size bs ml q) = true.
+Proof. exact pre_root_flag_plan. Qed.
+Print Assumptions C15_pre_root_flag.
+
+Theorem C15_pre_leaves : forall size bs ml q, size <= 2 ^ 63 -> bs <= 10 -> wf_ranges q = true -> q <> [] ->
+  leaves_increasing (pre_plan size bs ml q) 0 = true /\
+  forall s z ir rs, In (CLeaf s z ir rs) (pre_plan size bs ml q) -> leaf_shape_ok size s z = true.
+Proof. exact c15_pre_leaves. Qed.
+Print Assumptions C15_pre_leaves.
+
+Theorem C15_pre_structure : forall size bs ml q, size <= 2 ^ 63 -> bs <= 10 -> wf_ranges q = true -> q <> [] ->
+  parse_pre (S (length (pre_plan size bs ml q))) (pre_plan size bs ml q) 0 None = Some [].
+Proof. exact pre_parse_plan. Qed.
+Print Assumptions C15_pre_structure.
+
+Theorem C15_pre_cover : forall size bs ml q, size <= 2 ^ 63 -> bs <= 10 -> wf_ranges q = true -> q <> [] ->
+  (forall c, sel q size c = true -> in_leaves (leaves_of_plan (pre_plan size bs ml q)) c = true) /\
+  (forall lo hi, In (lo, hi) (leaves_of_plan (pre_plan size bs ml q)) ->
+     exists c, lo <= c < hi /\ sel q size c = true).
+Proof. exact c15_pre_cover. Qed.
+Print Assumptions C15_pre_cover.
+
+Theorem C15_holds_pre : forall size bs ml q, size <= 2 ^ 63 -> bs <= 10 -> wf_ranges q = true ->
+  holds_pre_plan size bs q (pre_plan size bs ml q) = true.
+Proof. exact holds_pre_plan_ok. Qed.
+Print Assumptions C15_holds_pre.
+
+(* ---- B. well-formedness of the recursive post-order plan ---- *)
+Theorem C15_post_stack : forall size bs, size <= 2 ^ 63 -> bs <= 10 ->
+  post_stack_ok (post_plan size bs) 0 = true.
+Proof. exact post_stack_ok_plan. Qed.
+Print Assumptions C15_post_stack.
+
+Theorem C15_post_tiles : forall size bs, size <= 2 ^ 63 -> bs <= 10 ->
+  post_tiles (post_plan size bs) 0 = Some (nchunks size).
+Proof. exact post_tiles_plan. Qed.
+Print Assumptions C15_post_tiles.
+
+Theorem C15_post_struct : forall size bs, size <= 2 ^ 63 -> bs <= 10 ->
+  post_struct (post_plan size bs) [] = true.
+Proof. exact post_struct_plan. Qed.
+Print Assumptions C15_post_struct.
+
+Theorem C15_post_root_flag : forall size bs, size <= 2 ^ 63 -> bs <= 10 ->
+  root_flag_last (post_plan size bs) = true.
+Proof. exact post_root_flag_plan. Qed.
+Print Assumptions C15_post_root_flag.
+
+Theorem C15_holds_post : forall size bs, size <= 2 ^ 63 -> bs <= 10 ->
+  holds_post_plan size bs (post_plan size bs) = true.
+Proof. exact holds_post_plan_ok. Qed.
+Print Assumptions C15_holds_post.
